@@ -173,7 +173,7 @@ PROPS.update({
                  extra_assume=["keys whose home channel was dead (Shutdown) while bound are don't-care until unbound; the empty key is no key"], sched="TestSchedC01"),
     "C02": _pool("TestC02", "Profile 'load'. Oracle: every unkeyed/unknown-key placement is on a channel of the picker's READY snapshot whose model in-flight count (placements minus completions, never read from the library) is minimal; end-of-case drain: after completing every call, n picks land on n distinct READY channels.",
                  "a least-loaded choice among >=2 snapshot channels plus a completion with a non-ok outcome, after a swap, or on a channel that left READY",
-                 conc=("TestConcC02", "Invariant: after the workload is quiescent (every completion ran) n picks land on n distinct channels - every count returned to zero.", 300, 12000)),
+                 conc=("TestConcC02", "Invariant: after the workload is quiescent (every completion ran) n picks land on n distinct channels - every count returned to zero.", 300, 12000, "TestSchedC02")),
     "C03": _pool("TestC03", "Profile 'size' ((min,max,watermark) from {0..6}x{0..6}x{0..4} incl. min>max, strict and lenient factories, pool emptied by shutdowns). Oracle: exactly max(1,min) conns after the first non-empty update; growth only by a saturated pick below max with no Idle/Connecting channel, that pick is told to wait; placement at max; size <= max for min<=max; RemoveSubConn only for the old conn of a completed refresh.",
                  "a growth event, a saturated pick at maxSize, or a re-created pool",
                  conc=("TestConcC03", "Invariant: the number of pool channels ever created never exceeds maxSize (min<=max) although saturated picks race on stale and current pickers while new connections are being brought up; RemoveSubConn only inside the take-over of a replacement.", 400, 14000, "TestSchedC03")),
